@@ -27,6 +27,9 @@ def handle (st : DState) (j : Json) : DState × Json :=
   | .str "trim_terms" => (st, trimTermsOp j)
   | .str "frob" => (st, frobOp j)
   | .str "qft" => (st, qftOp j)
+  | .str "partition" => (st, partitionOp j)
+  | .str "pad1" => (st, pad1Op j)
+  | .str "spinsum1" => (st, spinSum1Op j)
   | .str "iqpe" => (st, iqpeOp j)
   | .str "binfrac" => (st, binFracOp j)
   | .str "grouping" => (st, groupingOp j)
